@@ -85,6 +85,15 @@ func (g *c18gen) pred() (string, func(map[string]interface{}) bool) {
 			}
 			return v >= c
 		}
+	case 5: // values that look like dates: they are values of a tag, not instants, and stay as they are written
+		v := pick(g.r, []string{"2024-05-01", "2024-05-01 12:00:00", "2000-01-01T00:00:00Z", "2020-02-30", "1999-12-31 23:59:59.5"})
+		op := pick(g.r, []string{"=", "!=", "<", ">="})
+		k := pick(g.r, []string{"host", "region"})
+		text := fmt.Sprintf("%s %s '%s'", k, op, v)
+		if op == "<" || op == ">=" {
+			return text, nil
+		}
+		return text, func(t map[string]interface{}) bool { return (t[k] == v) == (op == "=") }
 	case 3: // type-annotated references: the annotation is part of the predicate
 		switch g.r.intn(4) {
 		case 0:
